@@ -15,7 +15,7 @@ What is proved and what is not:
   statement) — it is validated by the correspondence check against an exact rational evaluation, for
   adjustments up to 10^6 s; beyond that it is false for doubles (recorded finding, found by the monitor);
 * the documented example converts with `time.Duration(rtt) * time.Second`, i.e. truncates to whole seconds:
-  `C21_docs_conversion_counterexample` (recorded finding about the documentation).
+  `C21_docs_conversion_eq_code` (the documentation was repaired; `C21_docs_conversion_old_counterexample` is the regression witness).
 -/
 import SerfProofs.Lemmas.Coord
 import SerfProofs.Lemmas.ERatLaws
@@ -155,11 +155,15 @@ theorem C21_symm_rounding_partial (a b : Coordinate ERat) (ha : isValid a = true
 
 /-! ## 5. the documented example's conversion -/
 
-/-- The documented example ends in `time.Duration(rtt) * time.Second`, the code in
-`time.Duration(dist * secondsToNanoseconds)`: for 0.5 s the former yields 0, the latter 500 ms. -/
-theorem C21_docs_conversion_counterexample :
-    docs.conv = .truncateThenScale ∧ code.conv = .scaleThenTruncate ∧
-    docs.conv.eval (ERat.div (.fin 1) (.fin 2)) = 0 ∧ code.conv.eval (ERat.div (.fin 1) (.fin 2)) = 500000000 := by
+/-- Source-tied obligation (since the documentation repair): the documented example converts the seconds value
+to a `time.Duration` exactly as the code does (scale, then truncate). -/
+theorem C21_docs_conversion_eq_code : docs.conv = code.conv ∧ code.conv = .scaleThenTruncate := by decide
+
+/-- Regression witness for the example as it was documented before (`time.Duration(rtt) * time.Second`:
+truncate, then scale): for 0.5 s it yields 0, the code's conversion 500 ms. -/
+theorem C21_docs_conversion_old_counterexample :
+    Conv.truncateThenScale.eval (ERat.div (.fin 1) (.fin 2)) = 0 ∧
+    code.conv.eval (ERat.div (.fin 1) (.fin 2)) = 500000000 := by
   decide +kernel
 
 /-! ## Non-vacuity -/
